@@ -106,13 +106,13 @@ def decode_op(t):
 
 
 def strategy():
-    op = st.tuples(st.integers(0, 13), st.integers(0, 16 ** 4 - 1)).map(decode_op)
+    op = st.tuples(st.integers(0, 13), worldops.packed(16 ** 4)).map(decode_op)
     return st.fixed_dictionaries({
         'mode': st.integers(0, 1),
         'handlers': st.lists(st.integers(0, 7), min_size=2, max_size=6),     # 0: a handler listening to nothing
         'ops': worldops.chunked(op, 36),
         # scale: 0, or how many times every (direct) dispatch of the history is repeated
-        'amp': worldops.size_amp(none=44)})
+        'amp': worldops.size_amp(none=24)})
 
 
 class Run:
@@ -269,6 +269,9 @@ class Run:
             self.kill(i, 1)
 
     def op_forget(self, i):
+        reg = [k for k in range(self.n) if self.registered[k] and self.alive(k)]
+        if self.case.get('amp') and reg:
+            i = reg[i % len(reg)]       # hot-event cases: the handler dropped is one that is registered right now
         i %= self.n
         if self.kill(i, 0):
             self.flags['forgotten_between_operations'] += 1
